@@ -13,7 +13,7 @@ import subprocess
 
 ID = "C04"
 RULE = ("hist: random histories (4-25 ops: put/touch/get/DELETE/trash-list item with exact, off-by-one-ns, other-volume "
-        "and unrelated mtimes and with/without mount uuid/untrash/empty-trash/tick/bad-body/unauthenticated) over 3 hashes "
+        "and unrelated mtimes and with/without mount uuid/multi-entry trash lists/untrash/empty-trash/tick/bad-body/unauthenticated) over 3 hashes "
         "on 1-2 Directory volumes (writable/read-only, Serialize on/off), TTL 0-8 units, trash lifetime 0-4 units, "
         "BlobTrash on/off, full volumes (IsFull marker), read-only volumes of both kinds (Volumes.*.ReadOnly and AccessViaHosts.<url>.ReadOnly), DELETE of copies "
         "half a second younger / older than the TTL, planted intact/corrupt copies and trash entries of arbitrary age; non-trivial = the history "
@@ -211,6 +211,14 @@ def _gen_hist_one(rng):
                 mref = "a%d" % rng.choice([0, 1, 2, 3, 5, 8, 12])
             mount = rng.choice(["-", "-", "-", "0", "1", "x"])
             ops.append("ti:%s:%s:%s" % (h, mref, mount))
+        elif r < 0.735:
+            # one PUT /trash with several entries (work queue + trash worker run them in order)
+            its = []
+            for _ in range(rng.randint(2, 4)):
+                m = rng.random()
+                mref = "v0" if m < 0.55 else "v1" if m < 0.75 else rng.choice(["v0+", "v1+"]) if m < 0.85 else "a%d" % rng.choice([0, 2, 5, 12])
+                its.append("%s/%s/%s" % (rng.choice(hs), mref, rng.choice(["-", "-", "-", "0", "1", "x"])))
+            ops.append("tl:" + "&".join(its))
         elif r < 0.80:
             ops.append("untrash:" + h)
         elif r < 0.86:
@@ -238,6 +246,8 @@ MALFORMED = [
     "hist 3 2 1 1 wn 0:h0:g:0 put:h0",
     "hist 3 2 1 1 wn - ti:h0:q0:-",
     "hist 3 2 1 1 wn - ti:h0:v0:7",
+    "hist 3 2 1 1 wn - tl:h0/v0",
+    "hist 3 2 1 1 wn - tl:h0/q0/-&h0/v0/-",
     "hist x 2 1 1 wn - put:h0",
     "race 0 1 c o put del PTX",
     "race 2 1 c o put del PT",
@@ -354,6 +364,18 @@ def _walk_hist(case, impl):
     return c, out, t
 
 
+def _ti_entry_allows(mref, mount, x, vi, age, before):
+    """May a trash-list entry (mref, mount) for hash x remove the copy of age `age` on volume vi? None = yes."""
+    if mount in ("0", "1") and int(mount) != vi or mount == "x":
+        return "trashed %s on volume %d, not the requested mount" % (x, vi)
+    if not (mref in ("v0", "v1")):
+        return "trashed %s although the requested mtime matches no stored one" % x
+    src = int(mref[1])
+    if src >= len(before) or x not in before[src][0] or before[src][0][x][1] != age:
+        return "trashed %s on volume %d whose timestamp differs from the requested one" % (x, vi)
+    return None
+
+
 def oracle(case, impl):
     """From the property text, on implementation output only."""
     if impl.startswith(("panic", "CRASH", "error")):
@@ -416,9 +438,10 @@ def oracle(case, impl):
                 cls, age = bb[x]
                 if op == "ndel":
                     return "op %d (%s) trashed %s on volume %d although it was half a second younger than the TTL" % (i, ":".join(p), x, vi)
-                if op not in ("del", "odel", "ti"):
+                if op not in ("del", "odel", "ti", "tl"):
                     return "op %d (%s) removed block %s from volume %d" % (i, ":".join(p), x, vi)
-                if x != h:
+                items = [it.split("/") for it in p[1].split("&")] if op == "tl" else None
+                if (x != h) if items is None else all(it[0] != x for it in items):
                     return "op %d (%s) removed another block %s" % (i, ":".join(p), x)
                 if ro[vi]:
                     return "op %d (%s) trashed %s on read-only volume %d" % (i, ":".join(p), x, vi)
@@ -426,15 +449,15 @@ def oracle(case, impl):
                     return "op %d (%s) trashed %s although BlobTrash is off" % (i, ":".join(p), x)
                 if age < ttl:
                     return "op %d (%s) trashed %s of age %d < TTL %d" % (i, ":".join(p), x, age, ttl)
-                if op == "ti":
-                    mref, mount = p[2], p[3]
-                    if mount in ("0", "1") and int(mount) != vi or mount == "x":
-                        return "op %d (%s) trashed %s on volume %d, not the requested mount" % (i, ":".join(p), x, vi)
-                    if not (mref in ("v0", "v1")):
-                        return "op %d (%s) trashed %s although the requested mtime matches no stored one" % (i, ":".join(p), x)
-                    src = int(mref[1])
-                    if src >= len(before) or x not in before[src][0] or before[src][0][x][1] != age:
-                        return "op %d (%s) trashed %s on volume %d whose timestamp differs from the requested one" % (i, ":".join(p), x, vi)
+                if op in ("ti", "tl"):
+                    # some entry of the submitted list must name this hash, this mount and this stored timestamp
+                    why = None
+                    for it in ([[p[1], p[2], p[3]]] if op == "ti" else [it for it in items if it[0] == x]):
+                        why = _ti_entry_allows(it[1], it[2], x, vi, age, before)
+                        if why is None:
+                            break
+                    if why is not None:
+                        return "op %d (%s) %s" % (i, ":".join(p), why)
                 # trashed, not destroyed (unless lifetime 0): a trash entry with the full lifetime appears
                 if life > 0 and not any(e[0] == x and e[1] == life for e in ta_):
                     return "op %d (%s): %s left volume %d but no trash entry with the full lifetime appeared" % (i, ":".join(p), x, vi)
@@ -452,7 +475,7 @@ def oracle(case, impl):
                 elif op == "tick":
                     if not any(e2[0] == e[0] and e2[1] == e[1] - int(p[1]) for e2 in ta_):
                         return "op %d: trash entry vanished during tick" % i
-                elif op in ("del", "odel", "ti") and any(e2[0] == e[0] and e2[1] == e[1] for e2 in ta_):
+                elif op in ("del", "odel", "ti", "tl") and any(e2[0] == e[0] and e2[1] == e[1] for e2 in ta_):
                     pass  # replaced by an entry of the same name
                 else:
                     return "op %d (%s) removed trash entry %s.T%d on volume %d" % (i, ":".join(p), e[0], e[1], vi)
@@ -549,7 +572,7 @@ def neighbours(case, rng):
             elif r < 0.8:
                 h = rng.choice(hs)
                 o.insert(rng.randint(0, len(o)), rng.choice(["put:" + h, "touch:" + h, "del:" + h, "get:" + h,
-                                                             "ti:%s:v0:-" % h, "untrash:" + h, "empty", "tick:2"]))
+                                                             "ti:%s:v0:-" % h, "tl:%s/v0/-&%s/v1/-" % (h, h), "untrash:" + h, "empty", "tick:2"]))
             else:
                 o.append("get:" + rng.choice(hs))
             out.append(" ".join(f[:7] + [";".join(o) or "-"]))
